@@ -54,6 +54,10 @@ CHECKS = {
    text="ApiErrors.tla defines, per API route, the classes of every path/query/body parameter and the status family the server owes for each combination (never 5xx; validatable mistakes 4xx); TLC emits the full product (243 rows); each row is concretised several times (4 quick / 40 thorough) by a seeded grammar and sent through the production gin engine with gin.Recovery over the real stack on a store with a fork and an orphan chain; checked: no 5xx, status family, body exactly one JSON value, 4xx with non-empty code and message, headers-table digest unchanged.",
    technique="explicit TLA+ request-class table (ApiErrors.tla) emitted by TLC; grammar-concretised requests against the real gin engine and SQL stack",
    note=TB + " 'Any HTTP request whatsoever' is approximated by the class product with several instances per class; requests that match no registered route are out of scope."),
+ "C20": dict(cat="model_checking", ref="DESIGN.md §5 C20",
+   text="Config.tla defines Effective(sources) = env over file over default per key type and the database-section validation table; TLC checks Precedence / InvalidDbRefused on the tables and emits them; the harness enumerates EVERY leaf key of AppConfig by reflection over the mapstructure tags (new keys are included), and for every key x every subset of {env, file} writes a temporary YAML, sets/unsets the BHS_ variable, runs viper.Reset + config.SetDefaults + config.Load and compares the field, also checking that every OTHER key kept its default; all 320 meaningful validation rows go through Load (file or environment) + AppConfig.Validate.",
+   technique="explicit TLA+ tables (Config.tla) checked and emitted by TLC; instantiated on every reflected configuration key through the real viper-based loader",
+   note=TB + " Empty values cannot be expressed by a source (viper keeps the default); they are set on the loaded structure before Validate."),
 }
 
 NA = []
